@@ -155,3 +155,21 @@ Theorem committed_state_survives s d f log es :
   write_call s d f false = (done_dir d, true, log) -> forallb quiet es = true ->
   Forall (fun o => match o with ORead r => r = Some d | _ => True end) (drun (done_dir d) es).
 Proof. intros _ Q. exact (proj2 (quiet_keeps_done d es Q)). Qed.
+
+(** the retry loop of the syncer over the real store's directory protocol:
+    whatever finite sequence of transient failures the attempts suffer - each
+    at any operation, each leaving whatever it leaves behind - the loop ends
+    after at most one attempt more than there were failures, with the state
+    committed and durable *)
+Theorem retry_commits : forall faults s d,
+  fst (retry_write s d faults) = done_dir d /\ (snd (retry_write s d faults) <= S (length faults))%nat.
+Proof.
+  induction faults as [|f fs IH]; intros s d; cbn [retry_write].
+  - rewrite write_call_no_fault. cbn. split; [reflexivity|lia].
+  - pose proof (write_call_cases s d f false) as C.
+    destruct (write_call s d f false) as [[s' ok] log].
+    destruct C as [(-> & -> & _)|[(-> & _)|(-> & _)]].
+    + cbn. split; [reflexivity|lia].
+    + specialize (IH s' d). destruct (retry_write s' d fs) as [s'' n]. cbn in *. destruct IH as (E & L). split; [exact E|lia].
+    + specialize (IH s' d). destruct (retry_write s' d fs) as [s'' n]. cbn in *. destruct IH as (E & L). split; [exact E|lia].
+Qed.
